@@ -2,6 +2,7 @@
 From Coq Require Import Bool ZArith List.
 From K Require Import Lib.Types Model.Machine Model.Alu Model.Exec Spec.ISA Proofs.FlagProofs Proofs.BitProofs.
 From K Require Import Model.Bus Model.Cost Model.Addressing Proofs.RegProofs Proofs.StepProofs.
+From K Require Import Model.Cost Model.Addressing Model.Exec Proofs.MemProofs Proofs.StepProofs Proofs.CtlProofs Proofs.StepRefines.
 Open Scope Z_scope.
 
 (* all 14 operations x 256 operand values x 8 bit numbers x 256 CCR values: the shift/mask code of the
@@ -42,7 +43,22 @@ Theorem bit_register_refines :
           with_ccr c (if bit_writes o then set_reg8 s rd v else s)).
 Proof. exact bit_rn_refines. Qed.
 
+(* ---- from the instruction word in memory to the reference semantics, in one statement ----
+   s is ANY machine state whose PC is even and whose instruction word w can be fetched; w1..w4 are whatever follows it.
+   If the operation-code map decodes w as the two-byte instruction i, then one step of the model (fetch, dispatch, handler,
+   charge of one instruction-fetch cycle at the instruction's address) ends in exactly the state the reference semantics
+   sem_ref assigns (plus the bookkeeping field operating_pc). *)
+Theorem step_bit_register :
+  forall s w w1 w2 w3 w4 o b rd n,
+    cpu_ok s -> bus_bytes_ok s -> fault s = false -> pc s mod 2 = 0 -> 0 <= pc s -> pc s + 2 < 4294967296 ->
+    mem_read SW s (pc s) = Some w ->
+    decode_ref w w1 w2 w3 w4 = Some (IBit o b (BTReg rd), 2) ->
+    cs KI 1 (post_fetch s) = Ok n (post_fetch s) ->
+    exists s', sem_ref (IBit o b (BTReg rd)) 2 s = Some s' /\ step s = Ok n (set_opc (pc s) s').
+Proof. exact step_bit_reg_proof. Qed.
+
 Print Assumptions bit_kernel.
 Print Assumptions exactly_the_addressed_bit.
 Print Assumptions only_the_named_flag.
 Print Assumptions bit_register_refines.
+Print Assumptions step_bit_register.
